@@ -8,11 +8,11 @@ def sh(cmd, cwd=WT, timeout=1800):
 def results(out):
     return [l for l in out.splitlines() if l.startswith('test result') or 'error' in l[:6]]
 pid=sys.argv[1]
-src=f'/tmp/mut_{pid}_out'
+src=sys.argv[2] if len(sys.argv) > 2 else f'/tmp/mut_{pid}_out'
 patch=f'{src}/patch.diff'; demo=f'{src}/seeded_demo.rs'
-sh('git checkout -- . && git clean -fdq tests')
+sh('git checkout -q --detach $(git -C /repo rev-parse HEAD) 2>/dev/null; git checkout -- . && git clean -fdq tests')
 shutil.copy(demo, f'{WT}/tests/seeded_demo.rs')
-r={'property':pid}
+r={'property':pid[:3]}
 o=sh('CARGO_NET_OFFLINE=true cargo test --offline --test seeded_demo 2>&1 | tail -5')
 r['demo_on_clean_tree']=results(o.stdout)
 a=sh(f'git apply {patch}')
